@@ -5,7 +5,9 @@ import Cellml.Tie.LoaderGen
 /-! # C17 — the headline theorems of `Props/C17.lean`, stated about the code GENERATED from parser.py
 
     Subject: `Tie.GenA.genParse fd us` = the generated `Parser.parse` (`Gen.LoaderParse.parse`, stage order and the
-    component-units refusal from the source text) run on a fresh parser state over the stages `Tie.GenA.genStages fd`;
+    component-units refusal from the source text) run on a fresh parser state over the stages `Tie.GenA.genStages fd`,
+    which are themselves generated code (`_add_units`, `_add_components`, `_add_relationships`, `_add_connections`, the
+    symbol resolution of `_add_maths`, `transform_constants`: `Tie/LoaderStagesA…D.lean`, `genParse_tie`);
     for the two work lists also the closed loops over the generated loop bodies (`Tie.GenA.genConnect`,
     `genConnectWhile`). Every `fault_rejected_*_gen` is the corollary of `Props.C17.fault_rejected_*` (the `_full`
     variant, about `C17.loadFull`) through `parse_tie`; the variants of `Props/C17.lean` about `Load.load` (sorted unit
@@ -22,10 +24,12 @@ theorem rejected_gen {fd : FaultDoc} (us : Option Unit) (h : ∃ e, loadFull fd 
 /-! ## 1. Both work lists terminate; loading is a total function -/
 
 /-- `load_total` for the generated `parse`: it returns a parser state holding the finished model — the one
-    `loadFull` returns — or raises; there is no third outcome (in particular no state without a model). -/
+    `loadFull` returns — or raises; there is no third outcome (in particular no state without a model). The class
+    raised is `genClass fd e'`: the class `load_model` shows for `loadFull`'s error (`C17.className e'`), except that an
+    error of the unit work list keeps the class the generated `_add_units` raises (`genClass_of_units_ok`). -/
 theorem load_total_gen (fd : FaultDoc) (us : Option Unit) :
     (∃ ps F, genParse fd us = .ok ps ∧ ps.flat = some F ∧ loadFull fd = .ok F) ∨
-    (∃ e, genParse fd us = .error e ∧ ∃ e', loadFull fd = .error e' ∧ e = ⟨C17.className e'⟩) := by
+    (∃ e, genParse fd us = .error e ∧ ∃ e', loadFull fd = .error e' ∧ e = ⟨genClass fd e'⟩) := by
   rcases Cellml.Props.C17.load_total fd with ⟨F, hF⟩ | ⟨e, he⟩
   · left
     have hp := (parse_ok_iff fd us F).mpr hF
